@@ -665,6 +665,23 @@ idx_t dtw_wps_max(DTWWps* p, seq_t *wps, idx_t *r, idx_t *c, idx_t l1, idx_t l2)
 }
 
 
+/*!
+ Value of cell (r, c) of the compact warping paths matrix, INFINITY if the cell is not stored
+ (outside the window band).
+ */
+static seq_t dtw_wps_value(DTWWps *p, seq_t *wps, idx_t r, idx_t c, idx_t l1, idx_t l2) {
+    idx_t cb = 0, ce = 0;
+    if (r < 1 || c < 1 || r > l1 || c > l2) {
+        return INFINITY;
+    }
+    idx_t base = dtw_wps_loc_columns(p, r, &cb, &ce, l1, l2);
+    if (cb <= c && c < ce) {
+        return wps[base + c - cb];
+    }
+    return INFINITY;
+}
+
+
 {% set suffix = '' %}
 {% set use_isclose = 0 %}
 {%- include 'dtw_bestpath.jinja.c' %}
